@@ -252,7 +252,7 @@ impl Server {
         }
 
         if self.clients.len() >= self.config.max_total_connections
-            && self.active_clients.len() >= self.config.max_active_connections
+            || self.active_clients.len() >= self.config.max_active_connections
         {
             // No room in the inn
             let reply = frame::Frame::HandshakeErrorFrame(frame::HandshakeErrorFrame {
@@ -361,6 +361,26 @@ impl Server {
             match client.state {
                 remote_client::State::Pending(ref state) => {
                     if handshake.nonce_ack == state.local_nonce {
+                        if self.active_clients.len() >= self.config.max_active_connections {
+                            // Other handshakes have completed since the SYN was accepted, and there
+                            // is no longer room for this one
+                            let reply = frame::Frame::HandshakeErrorFrame(frame::HandshakeErrorFrame {
+                                nonce_ack: state.remote_nonce,
+                                error: frame::HandshakeErrorType::ServerFull,
+                            });
+                            let _ = self.socket.send_to(&reply.write(), client_addr);
+
+                            if self.config.enable_handshake_errors {
+                                self.events_out.push(Event::Error(client_addr, ErrorType::ServerFull));
+                            }
+
+                            client.state = remote_client::State::Fin;
+                            std::mem::drop(client);
+                            self.clients.remove(&client_addr);
+
+                            return;
+                        }
+
                         use crate::packet_id;
 
                         let config = half_connection::Config {
